@@ -110,7 +110,10 @@ def permuted(game, perm, names, fresh):
     m = base(game)
     for k, p in zip(names, perm):
         df = m.objs[k].df.iloc[list(p)]
-        if fresh:
+        if fresh == "dup":
+            # non-unique row labels (what pd.concat of two frames leaves behind): 0,1,0,1,... on the permuted rows
+            df = df.set_axis([j % 2 for j in range(len(df))], axis=0)
+        elif fresh:
             df = df.reset_index(drop=True)
         m.objs[k].df = df
     if game == "osu" and len(m.samples) == 2 and perm[0][0] != 0:
@@ -119,7 +122,7 @@ def permuted(game, perm, names, fresh):
 
 
 def bound(tier, seed):
-    return dict(games=list(charts.GAMES), shapes=[dict(hits=3, holds=2, bpms=3, svs=2)] + ([dict(hits=4, holds=3, bpms=2, svs=3, chord=True)] if tier == "thorough" else []), label_modes=["permuted labels", "fresh labels"], permutations_per_game={g: len(perms_of(base(g))[1]) for g in charts.GAMES})
+    return dict(games=list(charts.GAMES), shapes=[dict(hits=3, holds=2, bpms=3, svs=2)] + ([dict(hits=4, holds=3, bpms=2, svs=3, chord=True)] if tier == "thorough" else []), label_modes=["permuted labels", "fresh labels", "duplicate labels (0,1,0,1,...)"], permutations_per_game={g: len(perms_of(base(g))[1]) for g in charts.GAMES})
 
 
 CHUNK = 12
@@ -271,7 +274,7 @@ def explore(root, tier, ctx):
     SHAPE[0] = root.get("shape", 0)
     names, ps = perms_of(base(g))
     for i in range(root["start"], root["stop"]):
-        for fresh in (False, True):
+        for fresh in (False, True, "dup"):
             check_perm(g, i, fresh, ctx)
     SHAPE[0] = 0
 
